@@ -20,6 +20,15 @@ Theorem source_is_the_repaired_code : source_rules = repaired /\ source_shapes_o
 Proof. exact (conj IterProofs.source_rules_repaired IterProofs.source_shapes). Qed.
 Print Assumptions source_is_the_repaired_code.
 
+(*    Range_Iter_Last is TRANSLATED, not matched: the two expressions it assigns to i->val (Generated.v, every int64
+      operation under wrap64, whatever their form in the source) are, for every range in the box, the model's
+      first + step*(len-1). *)
+Theorem source_range_last_is_the_models : forall r, in_box r -> 0 < range_count r ->
+  (0 < r_step r -> iter_range_last_pos wrap64 (r_start r) (r_stop r) (r_step r) (range_count r) = range_val r (range_count r - 1)) /\
+  (r_step r < 0 -> iter_range_last_neg wrap64 (r_start r) (r_stop r) (r_step r) (range_count r) = range_val r (range_count r - 1)).
+Proof. exact IterProofs.source_range_last_ok. Qed.
+Print Assumptions source_range_last_is_the_models.
+
 (* 2. Forward iteration over a well-behaved iterable ends with Terminal after exactly the items of
       its chain, backward iteration yields the same items in reverse order. *)
 Theorem well_behaved_iterates : forall f u cvs, wb f u cvs -> iterates f u (map snd cvs).
